@@ -23,15 +23,18 @@ import (
 // request accepted that encoding.
 
 type c54Case struct {
-	ID     string `json:"id"`
-	Host   string `json:"host"` // gz.c54.test | br.c54.test | none.c54.test
-	Method string `json:"method"`
-	AE     string `json:"accept_encoding"` // "-" = header absent
-	Status int    `json:"status"`
-	Blen   int    `json:"blen"`
-	Kind   string `json:"kind"`  // text | random | pregzip
-	Frame  string `json:"frame"` // cl | chunked
-	Minor  int    `json:"minor"`
+	ID     string   `json:"id"`
+	Host   string   `json:"host"` // gz.c54.test | br.c54.test | none.c54.test
+	Method string   `json:"method"`
+	AE     string   `json:"accept_encoding"`                      // "-" = header absent
+	AE2    []string `json:"accept_encoding_more_lines,omitempty"` // further Accept-Encoding field lines
+	Sfx    string   `json:"path_suffix,omitempty"`                // "/gz": selects the GZIP rule of the mixed product
+	Shapes []string `json:"ae_shapes,omitempty"`                  // generated Accept-Encoding: grammar shapes it exhibits
+	Status int      `json:"status"`
+	Blen   int      `json:"blen"`
+	Kind   string   `json:"kind"`  // text | random | pregzip
+	Frame  string   `json:"frame"` // cl | chunked
+	Minor  int      `json:"minor"`
 }
 
 func c54Body(id string, n int, kind string) []byte {
@@ -51,43 +54,19 @@ func c54Body(id string, n int, kind string) []byte {
 	return b
 }
 
-// accepts implements RFC 7231 section 5.3.4 for one content-coding.
-// Returns (acceptable, listedExplicitly).
-func c54Accepts(ae string, coding string) (bool, bool) {
-	if ae == "-" {
-		return true, false // no header: any coding is acceptable
+// aeLines returns the Accept-Encoding field lines of the request (nil = none).
+func (c *c54Case) aeLines() []string {
+	if c.AE == "-" {
+		return nil
 	}
-	star, starQ := false, 0.0
-	for _, part := range strings.Split(ae, ",") {
-		f := strings.Split(part, ";")
-		name := strings.ToLower(strings.TrimSpace(f[0]))
-		q := 1.0
-		for _, p := range f[1:] {
-			p = strings.TrimSpace(p)
-			if strings.HasPrefix(strings.ToLower(p), "q=") {
-				if v, err := strconv.ParseFloat(p[2:], 64); err == nil {
-					q = v
-				}
-			}
-		}
-		if name == coding {
-			return q > 0, true
-		}
-		if name == "*" {
-			star, starQ = true, q
-		}
-	}
-	if star {
-		return starQ > 0, false
-	}
-	return false, false
+	return append([]string{c.AE}, c.AE2...)
 }
 
 func (c *c54Case) bytes() []byte {
 	var sb strings.Builder
-	fmt.Fprintf(&sb, "%s /c54/%s HTTP/1.%d\r\nHost: %s\r\nX-Id: %s\r\nX-Status: %d\r\nX-Blen: %d\r\nX-Kind: %s\r\nX-Frame: %s\r\n", c.Method, c.ID, c.Minor, c.Host, c.ID, c.Status, c.Blen, c.Kind, c.Frame)
-	if c.AE != "-" {
-		fmt.Fprintf(&sb, "Accept-Encoding: %s\r\n", c.AE)
+	fmt.Fprintf(&sb, "%s /c54/%s%s HTTP/1.%d\r\nHost: %s\r\nX-Id: %s\r\nX-Status: %d\r\nX-Blen: %d\r\nX-Kind: %s\r\nX-Frame: %s\r\n", c.Method, c.ID, c.Sfx, c.Minor, c.Host, c.ID, c.Status, c.Blen, c.Kind, c.Frame)
+	for _, l := range c.aeLines() {
+		fmt.Fprintf(&sb, "Accept-Encoding: %s\r\n", l)
 	}
 	if c.Minor == 0 {
 		sb.WriteString("Connection: keep-alive\r\n")
@@ -149,23 +128,32 @@ func c54Backend(x *e2e.Exchange) e2e.Action {
 }
 
 func c54(r *vkit.Run) {
-	r.SetRule("full in-process BFE with mod_compress (GZIP rule for one host, BROTLI for another, no rule for a third); requests with 22 Accept-Encoding shapes (absent, empty, q-values incl. q=0, '*', case variants, look-alikes x-gzip/gzipx) x GET/HEAD x HTTP/1.0/1.1; backend bodies 0 B..2 MB (compressible text, random bytes, already gzip-encoded with Content-Encoding) framed by Content-Length or chunked, statuses 200/206+Content-Range/204/304/404; the client byte stream (case + pipelined probe) is parsed strictly, the body is decompressed with compress/gzip or andybalholm/brotli as announced and compared with the backend body; the announced coding must be acceptable under RFC 7231 5.3.4. Non-trivial = response was compressed by bfe; distinct = axis tuple")
+	r.SetRule("full in-process BFE with mod_compress (GZIP rule for one host, BROTLI for another, no rule for a third); requests with 22 Accept-Encoding shapes (absent, empty, q-values incl. q=0, '*', case variants, look-alikes x-gzip/gzipx) x GET/HEAD x HTTP/1.0/1.1; backend bodies 0 B..2 MB (compressible text, random bytes, already gzip-encoded with Content-Encoding) framed by Content-Length or chunked, statuses 200/206+Content-Range/204/304/404; the client byte stream (case + pipelined probe) is parsed strictly, the body is decompressed with compress/gzip or andybalholm/brotli as announced and compared with the backend body; the announced coding must be acceptable under RFC 7231 5.3.4. Non-trivial = response was compressed by bfe; distinct = axis tuple. GENERATED ACCEPT-ENCODING FAMILY (c54ae.go): products with a GZIP rule, a BROTLI rule, both rules matching every request in either order (first rule decides) and a product whose GZIP rule matches only paths ending in /gz (BROTLI otherwise); values built from the RFC 7231 5.3.4 grammar around the product's codings: OWS (SP, HTAB) before/after ';' and around ',', 'q'/'Q', qvalues 0 0. 0.0 0.000 0.001 0.5 0.9 1 1. 1.0 1.000, non-grammar weights (1.5 -1 abc empty 0.0000 2 1.001 .5), '*' with/without q=0, identity;q=0, the coding listed twice, look-alikes (brotli x-gzip gzipp br2 xbr x-br ...), upper/mixed-case codings, empty list elements, the list split over two field lines; biased to 'rule coding refused + another compressible coding accepted'. Reference model from RFC 7231 5.3.4/5.3.1 + RFC 7230 3.2.2/7 (c54ae.go): acceptable = no field, or listed with every q>0, or unlisted and '*' with q>0; not acceptable = field present without the coding and without '*', every listing q=0, or unlisted and '*' q=0; counted but NOT judged ('either', RFC silent): coding (or deciding '*') listed with both q=0 and q>0, listing with a weight outside the grammar, malformed element mentioning the coding. One-sided oracle (property: 'only if the request accepted that encoding'): encoded with X while X is not acceptable = violation; an acceptable coding left uncompressed is counted, not judged. Inconclusive if a grammar shape, a product kind's compressed/pass-through outcome, or the refused-rule-coding-with-other-accepted region was never observed")
 	bs := e2e.NewBackendSet()
 	defer bs.Close()
 	be := bs.New("b1", c54Backend)
 	sub := []e2e.SubCluster{{Name: "s", Weight: 100, Backends: []e2e.Backend{{Name: "b1", Addr: be.Addr, Port: be.Port, Weight: 1}}}}
-	rule := func(cmd string) string {
-		return fmt.Sprintf(`[{"Cond":"default_t()","Action":{"Cmd":"%s","Quality":5,"FlushSize":512}}]`, cmd)
+	rule := func(cond, cmd string) string {
+		return fmt.Sprintf(`{"Cond":"%s","Action":{"Cmd":"%s","Quality":5,"FlushSize":512}}`, cond, cmd)
 	}
 	srv, err := e2e.Start(&e2e.Options{
 		Modules: []string{"mod_compress"},
 		Files: map[string]string{
-			"mod_compress/compress_rule.data": fmt.Sprintf(`{"Version":"v1","Config":{"p_gz":%s,"p_br":%s}}`, rule("GZIP"), rule("BROTLI")),
+			// p_gb / p_bg: both rules match every request, the first one decides;
+			// p_mix: the GZIP rule matches paths ending in "/gz", everything else gets BROTLI
+			"mod_compress/compress_rule.data": fmt.Sprintf(`{"Version":"v1","Config":{"p_gz":[%s],"p_br":[%s],"p_gb":[%s,%s],"p_bg":[%s,%s],"p_mix":[%s,%s]}}`,
+				rule("default_t()", "GZIP"), rule("default_t()", "BROTLI"),
+				rule("default_t()", "GZIP"), rule("default_t()", "BROTLI"),
+				rule("default_t()", "BROTLI"), rule("default_t()", "GZIP"),
+				rule(`req_path_suffix_in(\"/gz\", false)`, "GZIP"), rule("default_t()", "BROTLI")),
 		},
 		Clusters: []e2e.Cluster{
 			{Name: "gz", Hosts: []string{"gz.c54.test"}, SubClusters: sub},
 			{Name: "br", Hosts: []string{"br.c54.test"}, SubClusters: sub},
 			{Name: "none", Hosts: []string{"none.c54.test"}, SubClusters: sub},
+			{Name: "gb", Hosts: []string{"gb.c54.test"}, SubClusters: sub},
+			{Name: "bg", Hosts: []string{"bg.c54.test"}, SubClusters: sub},
+			{Name: "mix", Hosts: []string{"mix.c54.test"}, SubClusters: sub},
 		}})
 	if err != nil {
 		r.Inconclusive("server start: " + err.Error())
@@ -200,6 +188,19 @@ func c54(r *vkit.Run) {
 				}
 			}
 		}
+		// generated Accept-Encoding values (c54ae.go) on every kind of product: GZIP
+		// rule, BROTLI rule, both rules in either order, rule chosen by the path
+		for i, na := 0, r.N(3000, 60000); i < na; i++ {
+			g := r.Rng("ae", i)
+			host := c54AEHosts[i%len(c54AEHosts)]
+			sfx := ""
+			if host.name == "mix.c54.test" && g.Bool() {
+				sfx = "/gz"
+			}
+			ae := c54GenAE(g, host.focus)
+			add(c54Case{Host: host.name, Method: "GET", AE: ae.Lines[0], AE2: ae.Lines[1:], Sfx: sfx, Shapes: ae.Shapes, Status: 200,
+				Blen: []int{600, 3000, 20, 9000}[g.Intn(4)], Kind: "text", Frame: g.PickS([]string{"cl", "chunked"}), Minor: 1 - g.Intn(8)/7})
+		}
 		m := r.N(2400, 80000)
 		sizes := []int{0, 1, 20, 511, 512, 513, 4096, 70000, 300000, 2 << 20}
 		for i := 0; i < m; i++ {
@@ -231,6 +232,9 @@ func c54(r *vkit.Run) {
 	})
 	for i, c := range cases {
 		key := fmt.Sprintf("%s|%s|%q|%d|%d|%s|%s|%d", c.Host, c.Method, c.AE, c.Status, c.Blen, c.Kind, c.Frame, c.Minor)
+		if len(c.AE2) > 0 || c.Sfx != "" {
+			key += fmt.Sprintf("|%q|%s", c.AE2, c.Sfx)
+		}
 		w := map[string]interface{}{"case": c, "request": string(c.bytes()), "client_head": clip(string(raws[i]), 600)}
 		if !oks[i] || len(raws[i]) == 0 {
 			r.CaseS(key, false)
@@ -267,6 +271,9 @@ func c54(r *vkit.Run) {
 		}
 		r.CaseS(key, compressedByBfe)
 		sig := strings.Split(c.Host, ".")[0]
+		if c.Shapes != nil {
+			c54AEAccount(r, c, ce, compressedByBfe)
+		}
 		if !noBody {
 			switch {
 			case compressedByBfe:
@@ -291,12 +298,16 @@ func c54(r *vkit.Run) {
 				} else if !bytes.Equal(dec, backendBody) {
 					r.Violation("decompressed-body-differs:"+ce+":"+sig, fmt.Sprintf("decompressed %d bytes, backend sent %d", len(dec), len(backendBody)), w)
 				}
-				if ok, _ := c54Accepts(c.AE, ce); !ok {
-					shape := "not-listed"
-					if strings.Contains(strings.ToLower(c.AE), ce) {
-						shape = "listed-with-q0-or-lookalike"
+				switch v, why := c54Acceptable(c.aeLines(), ce); v {
+				case c54No:
+					if why == "not-listed" && strings.Contains(strings.ToLower(strings.Join(c.aeLines(), ",")), ce) {
+						why = "only-a-lookalike-listed"
 					}
-					r.Violation("compressed-although-not-acceptable:"+ce+":"+shape, fmt.Sprintf("Accept-Encoding %q does not accept %s", c.AE, ce), w)
+					r.Violation("compressed-although-not-acceptable:"+ce+":"+why, fmt.Sprintf("Accept-Encoding %q does not accept %s (RFC 7231 5.3.4: %s)", c.aeLines(), ce, why), w)
+				case c54Either:
+					r.Count("compressed_where_rfc7231_is_silent["+why+"]", 1)
+				default:
+					r.Count("compressed_and_acceptable["+why+"]", 1)
 				}
 				if backendCE != "" {
 					r.Violation("double-encoding:"+ce+"-over-"+backendCE, "an already encoded backend body was compressed again", w)
@@ -319,6 +330,9 @@ func c54(r *vkit.Run) {
 		if r.WantSample() && compressedByBfe && i%53 == 0 {
 			r.Sample(map[string]interface{}{"case": c, "content_encoding": ce, "wire_body_len": len(resp.Body), "backend_body_len": len(backendBody)})
 		}
+	}
+	if r.Replay == "" {
+		c54AEFinish(r)
 	}
 	if r.Replay == "" && (r.Counter("compressed_gzip") == 0 || r.Counter("compressed_br") == 0 || r.Counter("passed_through") == 0) {
 		r.Inconclusive("gzip, brotli or pass-through path never observed")
